@@ -989,7 +989,7 @@ Proof.
     { intros E; inversion E; subst. split; [qe; auto|]. split; [se | apply kwf_nil]. }
     destruct (minrc_drop (a_rc x)) as [[v z]|].
     + destruct z.
-      * set (x1 := mkActor SZombie (a_strong x) v None (a_logid x) true).
+      * set (x1 := mkActor SZombie (oz (count_set_state (a_strong x) STATE_ZOMBIE)) v None (a_logid x) true).
         set (s1 := emit (upd_actor s a x1) (EModel M_FREE_ACTOR a)).
         assert (L1 : sle s s1) by (eapply sle_trans; [apply sle_upd_actor | se]).
         assert (H1 : QWF s1) by (qe; apply Q_upd_actor; auto; split; exact I).
